@@ -163,3 +163,98 @@ def reuse_replay(ctx, drv, prop):
                       % (e.get("step"), "; ".join(e.get("diff", ["exchanges did not end after cancel + Close"])),
                          json.dumps(e.get("prefix", []))[:1500]),
                       artefact={"event": e, "paths_file": f})
+
+
+PIPE_BUGS = {
+    # cfg -> (what TLC must report, which property the sensitivity run belongs to)
+    "PipeStep_bug_retryfresh": ("C14_FreshReported", "C14"),
+    "PipeStep_bug_noretire": ("Inv_C14_Retired", "C14"),
+    "PipeStep_bug_lateleak": ("Inv_C18_NoLeak", "C18"),
+}
+
+
+def pipe_class(e):
+    """Which property a divergence of the real pipelined transport from PipeStep belongs to."""
+    if e["ev"] == "rp.leak":
+        return "C18"
+    if e["ev"] == "rp.stuck":
+        return "C14"
+    if e["ev"] == "rp.note":
+        return "C05"
+    fields = {x.split(":")[0].split("[")[0] for x in e.get("diff", [])}
+    if e.get("closed") or e.get("act") == "Close" or "tclosed" in fields:
+        return "C18"
+    if fields & {"got", "qid", "nextqid", "nqueue", "rl"}:
+        return "C05"
+    if any("reply" in x for x in e.get("diff", [])):
+        return "C05"
+    return "C14"
+
+
+def pipe_part(ctx, drv, prop):
+    """PipeStep (pipelined transport = connection pool + multiplexed connections, one action per critical section):
+    exhaustive design check, the sensitivity variants of this property, then behaviours of the model replayed
+    into the real PipelineTransport under the gate scheduler."""
+    # quick: 2 exchanges, 2 connections, IDs 0..1, 2 streams per connection, 1 retry; server sends: 2 for C05 (1.9 M
+    # states), 1 elsewhere (0.3 M); thorough adds 3 exchanges (61 M states, 8 min)
+    ctx.exhaustive("PipeStep", "PipeStep_MC" if (prop == "C05" or not ctx.quick) else "PipeStep_MC_quick", timeout=900)
+    if not ctx.quick:
+        ctx.exhaustive("PipeStep", "PipeStep_thorough", timeout=3000)
+    if prop == "C14":
+        ctx.exhaustive("PipeStep", "PipeStep_live", timeout=900, workers=4)
+    for cfg, (want, p) in PIPE_BUGS.items():
+        if p != prop:
+            continue
+        b = vf.tlc("PipeStep", cfg=cfg, timeout=300, workers=4)
+        if b.ok or b.violated != want:
+            raise vf.MachineryError("sensitivity run %s did not report %s (got %s)" % (cfg, want, b.violated))
+    import ppaths
+    n = 2000 if ctx.quick else 30000
+    total_steps = 0
+    for cfg, maxid, maxstream in (("PipeStepReplay", 2, 2), ("PipeStepReplay_s1", 1, 1)):
+        states, init, paths = ppaths.merge(ppaths.simulate_many(n if maxstream > 1 else n // 3, 80, ctx.seed, cfg=cfg, timeout=3000))
+        if len(paths) < (n if maxstream > 1 else n // 3) // 2:
+            raise vf.MachineryError("too few behaviours from the simulator: %d" % len(paths))
+        f = ctx.path("ppaths_%s.json" % cfg)
+        json.dump({"states": states, "init": init, "paths": paths, "maxid": maxid, "maxstream": maxstream}, open(f, "w"))
+        t = ctx.path("preplay_%s.ndjson" % cfg)
+        ctx.driver(drv, ["-mode", "preplay", "-n", 3000, "-in", f, "-out", t], timeout=3000)
+        evs = [json.loads(x) for x in open(t).read().splitlines()]
+        done = [e for e in evs if e["ev"] == "rp.done"]
+        if not done:
+            raise vf.MachineryError("replay driver did not finish")
+        steps = done[0]["steps"]
+        total_steps += steps
+        ctx.traces += len(paths)
+        ctx.events += steps
+        ctx.extra.setdefault("pipe_replay", []).append(
+            {"cfg": cfg, "behaviours": len(paths), "steps_replayed": steps, "model_states_visited": len(states),
+             "ended_at_a_map_order_choice": done[0]["alts"], "diverged": done[0]["diverged"]})
+        vf.log("replay PipeStep -> PipelineTransport (%s): %d behaviours, %d steps, %d diverged" % (cfg, len(paths), steps, done[0]["diverged"]))
+        if paths:
+            ctx.sample({"pipe_replay_behaviour": [s["act"] for s in paths[len(paths) // 2]]})
+        for e in evs:
+            if e["ev"] not in ("rp.diverge", "rp.stuck", "rp.leak", "rp.note"):
+                continue
+            cls = pipe_class(e)
+            if cls != prop:
+                ctx.extra.setdefault("other_property_rejections_ignored", {})
+                k = "pipe-replay:" + cls
+                ctx.extra["other_property_rejections_ignored"][k] = ctx.extra["other_property_rejections_ignored"].get(k, 0) + 1
+                continue
+            if e["ev"] == "rp.leak":
+                ctx.violation("Inv_C18_NoLeak:pipe-replay", "after Close and after every caller had returned, connection(s) %s of the pipelined transport were still open" % e.get("conns"),
+                              artefact={"event": e, "paths_file": f})
+                continue
+            if e["ev"] == "rp.note":
+                ctx.violation("Inv_C05_Match:pipe-replay:write", "the pipelined transport wrote a frame that does not belong to the exchange owning its wire ID: %s" % "; ".join(e.get("notes", []))[:600],
+                              artefact={"event": e, "paths_file": f})
+                continue
+            fields = ",".join(sorted({x.split(":")[0].split("[")[0] for x in e.get("diff", [])})) or "stuck"
+            key = "pipe-replay:%s:%s%s" % (e.get("act", "cleanup"), fields, ":closed" if e.get("closed") else "")
+            ctx.violation(key, "the real PipelineTransport leaves the behaviours of PipeStep at step %s of a replayed behaviour: %s (prefix %s)"
+                          % (e.get("step"), "; ".join(e.get("diff", ["exchanges did not end after cancel + Close"])),
+                             json.dumps(e.get("prefix", []))[:1500]),
+                          artefact={"event": e, "paths_file": f})
+    if total_steps < 2000:
+        raise vf.MachineryError("pipe replay executed too few steps (%d)" % total_steps)
